@@ -40,6 +40,7 @@ def _evidence(prop, tier, seed, agg, n_viol, known_hits, samples, extra=None):
         "faults": faults,
         "operations": ops,
         "probes": dict(sorted(agg.probes.items())),
+        "unreached_probes": [k for k in batch.EXPECTED_PROBES.get(prop, []) if not agg.probes.get(k)],
         "oracle_evaluations": {k: v for k, v in sorted(st.items()) if not k.startswith("op.")},
         "distinct_states_visited": len(agg.visited),
         "distinct_final_states": len(agg.states),
